@@ -461,3 +461,20 @@ fn test_striptags() {
         "This is &unknown; x"
     );
 }
+
+#[test]
+fn test_truncate_huge_length() {
+    use minijinja::render;
+    use minijinja_contrib::filters::truncate;
+
+    let mut env = Environment::new();
+    env.add_filter("truncate", truncate);
+    assert_eq!(
+        render!(in env, r"{{ 'hello world'|truncate(length=18446744073709551615) }}"),
+        "hello world"
+    );
+    assert_eq!(
+        render!(in env, r"{{ 'hello world'|truncate(length=3, leeway=18446744073709551615) }}"),
+        "hello world"
+    );
+}
